@@ -199,3 +199,75 @@ func c01Reuse(env *Env, rep *Report, alpha []sym, depth int) int {
 	}
 	return distinct
 }
+
+// c01Burst: pipelining. The same history sent without waiting for the answers (all packets available to the
+// gateway at once) gives the same responses, connections and relayed bytes as when every answer is awaited:
+// what a packet is allowed to do never depends on work the gateway still has in progress for the packet before.
+func c01Burst(env *Env, rep *Report, alpha []sym) int {
+	n, distinct := 0, 0
+	na := len(alpha)
+	flat := func(res *SeqResult) string {
+		var sb strings.Builder
+		dials, bytesN := 0, 0
+		for _, o := range res.Steps {
+			for _, p := range o.Resps {
+				fmt.Fprintf(&sb, "%#x/%#x ", p.Type, tsgu.ParseResp(p).Status)
+			}
+			dials += len(o.Dials)
+			bytesN += len(o.BackendNew)
+		}
+		ended := len(res.Steps) > 0 && res.Steps[len(res.Steps)-1].Ended
+		return fmt.Sprintf("%s| dials=%d host-bytes=%d ended=%v", sb.String(), dials, bytesN, ended)
+	}
+	for _, kind := range []string{"proc", "ws", "legacy"} {
+		good := c01Good(alpha, true)
+		var hists [][]int
+		// the canonical history with one extra symbol at every position (the extra symbol is pipelined behind its
+		// predecessor), and every pair after each canonical prefix
+		for pos := 0; pos <= len(good); pos++ {
+			for si := 0; si < na; si++ {
+				hists = append(hists, append(append(append([]int{}, good[:pos]...), si), good[pos:]...))
+			}
+		}
+		for k := 0; k < len(good); k++ {
+			for a := 0; a < na; a++ {
+				if alpha[a].Class == "OTHER" {
+					continue
+				}
+				for b := 0; b < na; b++ {
+					if alpha[b].Class == "OTHER" {
+						continue
+					}
+					hists = append(hists, append(append([]int{}, good[:k]...), a, b))
+				}
+			}
+		}
+		for _, h := range hists {
+			n++
+			if !env.mine(n) {
+				continue
+			}
+			distinct++
+			mk := func(burst bool) []Seg {
+				segs := make([]Seg, len(h))
+				for i, x := range h {
+					segs[i] = Seg{Name: alpha[x].Name, Bytes: alpha[x].Bytes, NoWait: burst && i < len(h)-1}
+				}
+				return segs
+			}
+			paced := RunSeq(c01Cfg(true, false, kind), mk(false))
+			burst := RunSeq(c01Cfg(true, false, kind), mk(true))
+			rep.add("executions", 2)
+			rep.add("transitions", int64(paced.StepsRun+burst.StepsRun))
+			for _, p := range burst.Panics {
+				rep.violate("C01/panic:"+shortFn(panicSite(p))+"/pipelined/"+kind, p.Value, map[string]any{"noreplay": true})
+			}
+			a, b := flat(paced), flat(burst)
+			rep.outcome("pipelined same=" + fmt.Sprint(a == b))
+			if a != b && paced.Opened && burst.Opened {
+				rep.violate("C01/pipelined-packets-treated-differently/"+kind, fmt.Sprintf("history %v: answers awaited one by one: %s; all packets sent at once: %s", histNames(alpha, h), a, b), map[string]any{"noreplay": true})
+			}
+		}
+	}
+	return distinct
+}
